@@ -39,7 +39,9 @@ type Region struct {
 	ID     uint64
 	Name   []byte
 	Host   string
-	Online bool // false: split/merged away or table dropped
+	// MetaHost, if non-empty, is what hbase:meta still reports while a move is in progress (the region is served at Host)
+	MetaHost string
+	Online   bool // false: split/merged away or table dropped
 	// transient unavailability: the next Flaps requests get exception FlapClass
 	Flaps     int
 	FlapClass string
@@ -248,6 +250,27 @@ func (c *Cluster) PutRow(table string, key []byte, cells []KV) {
 }
 
 // ---- cluster events ------------------------------------------------------
+
+// MoveSlowly starts serving the region at host but leaves hbase:meta pointing at the old server until MetaCatchUp.
+func (c *Cluster) MoveSlowly(r *Region, host string) {
+	c.mu.Lock()
+	if r.MetaHost == "" {
+		r.MetaHost = r.Host
+	}
+	r.Host = host
+	c.mu.Unlock()
+	c.Trace.Emit("event", "what", "moveslowly", "region", string(r.Name), "to", host)
+}
+
+// MetaCatchUp makes hbase:meta report the current server of every region.
+func (c *Cluster) MetaCatchUp() {
+	c.mu.Lock()
+	for _, r := range c.Regions {
+		r.MetaHost = ""
+	}
+	c.mu.Unlock()
+	c.Trace.Emit("event", "what", "metacatchup")
+}
 
 // Move moves a region to another server.
 func (c *Cluster) Move(r *Region, host string) {
